@@ -80,7 +80,11 @@ mod execcmp;
 fn main() {
     // generators and the code under test recurse over documents: run on a roomy stack
     let h = std::thread::Builder::new().stack_size(256 << 20).spawn(real_main).unwrap();
-    let _ = h.join();
+    if h.join().is_err() {
+        // nothing may end a check silently: a panic that escaped every guard is a broken run, not a pass
+        eprintln!("INCONCLUSIVE: the check thread panicked outside every guard");
+        std::process::exit(2);
+    }
 }
 
 fn real_main() {
@@ -102,7 +106,7 @@ fn real_main() {
             ctx.replay = Some(r);
         }
     }
-    match id.as_str() {
+    let dispatched = vcore::drive::catch(std::panic::AssertUnwindSafe(|| match id.as_str() {
         #[cfg(feature = "c01")]
         "C01" => c01::run(&mut ctx),
         #[cfg(feature = "c02")]
@@ -175,6 +179,18 @@ fn real_main() {
             eprintln!("unknown property {} (or its module is not compiled in)", id);
             std::process::exit(2);
         }
+    }));
+    if let Err(panic) = dispatched {
+        // A panic outside a generated case (set-up code, hand-written witnesses). Raised by the harness's own code
+        // it says nothing about the property (exit 2); raised inside async-graphql it is a crash of the code under
+        // test on an input the check feeds it on purpose.
+        let in_harness = ["/vcheck/src/", "/vgql/src/", "/vcore/src/", "/vschemas/src/", "vcheck/src/", "vgql/src/", "vcore/src/", "vschemas/src/"].iter().any(|p| panic.rsplit(" @ ").next().unwrap_or("").contains(p));
+        if in_harness {
+            eprintln!("INCONCLUSIVE: harness panic outside a case: {}", panic);
+            std::process::exit(2);
+        }
+        let c = vcore::Case::fail("(outside a generated case: set-up code or a hand-written witness of this check)", format!("panic in the code under test: {}", panic));
+        ctx.violation("unguarded", None, &c, serde_json::json!({"panic": panic}));
     }
     ctx.finish();
 }
